@@ -460,7 +460,8 @@ impl AsyncRead for StepReader<'_> {
 fn interleaved_leg(rep: &mut Report, cfgs: &[Cfg]) {
     use futures_util::StreamExt;
     let thorough = rep.thorough();
-    let n = if thorough { 8 } else { 6 };
+    // (a chunker stream allocates its refill buffer up front: about half a millisecond per pair of streams)
+    let n = 6;
     let alpha: Vec<u8> = vec![0x00, b'a'];
     let inputs: Vec<Vec<u8>> = (0..count_strings(&alpha, n)).map(|i| nth_string(&alpha, n, i)).chain([vec![], vec![b'a'], (0..40u8).collect(), vec![0u8; 33], vec![0xffu8; 29]]).collect();
     let sel: Vec<&Cfg> = cfgs.iter().enumerate().filter(|(i, _)| thorough || i % 6 == 0).map(|(_, c)| c).collect();
